@@ -270,7 +270,7 @@ func (s *soloSim) stepVerify(member bool) string {
 	for h := 0; h < nh; h++ {
 		ts := s.nextTs()
 		sSeq, sTs, sDiv, sKey, sVal := s.seq, ts, s.div, key, value // what gets signed
-		pTs, pKey, pVal := ts, key, value                          // what gets presented
+		pTs, pKey, pVal := ts, key, value                           // what gets presented
 		signer, idx := privs, all
 		labels := []string{"sequence", "timestamp", "diversifier", "path", "data", "foreign-key", "earlier-timestamp", "kind-swap"}
 		if len(privs) > 1 {
